@@ -93,10 +93,14 @@ Perms(S) == {q \in [1..Cardinality(S) -> S] : \A i, j \in 1..Cardinality(S) : i 
 BorderScn == {[sh |-> sh, parts |-> q] : sh \in {"border", "border-top", "border-left", "outline", "column-rule"},
                 q \in UNION {Perms(S) : S \in (SUBSET {"width", "style", "color"}) \ {{}}}}
 \* flex keywords and numbers (CSS Flexbox 7.1.1): <<grow, shrink, basis>> ; basis "0" | "auto" | "content"
-FlexScn == {"none", "auto", "initial", "2", "2 3", "10px", "2 10px", "2 3 10px", "0 auto"}
+\* (a unitless zero that is not preceded by two flex factors is a flex factor; after two factors it is the basis)
+FlexScn == {"none", "auto", "initial", "2", "2 3", "10px", "2 10px", "2 3 10px", "0 auto", "2 3 0", "0 0 0", "0", "0 0", "0 10px", "10px 2", "10px 2 3", "0 2 auto"}
 FlexValue(t) == CASE t = "none" -> <<0, 0, "auto">> [] t = "auto" -> <<1, 1, "auto">> [] t = "initial" -> <<0, 1, "auto">>
                   [] t = "2" -> <<2, 1, "0">> [] t = "2 3" -> <<2, 3, "0">> [] t = "10px" -> <<1, 1, "10px">>
                   [] t = "2 10px" -> <<2, 1, "10px">> [] t = "2 3 10px" -> <<2, 3, "10px">> [] t = "0 auto" -> <<0, 1, "auto">>
+                  [] t = "2 3 0" -> <<2, 3, "0">> [] t = "0 0 0" -> <<0, 0, "0">> [] t = "0" -> <<0, 1, "0">> [] t = "0 0" -> <<0, 0, "0">>
+                  [] t = "0 10px" -> <<0, 1, "10px">> [] t = "10px 2" -> <<2, 1, "10px">> [] t = "10px 2 3" -> <<2, 3, "10px">>
+                  [] t = "0 2 auto" -> <<0, 2, "auto">>
 \* columns: <width> || <count> in any order, `auto` for either (CSS Multicol 1): <<column-width, column-count>> ; "auto" | "10em" | "3"
 ColumnsScn == {"auto", "10em", "3", "auto auto", "auto 10em", "10em auto", "auto 3", "3 auto", "10em 3", "3 10em"}
 ColumnsValue(t) == CASE t \in {"auto", "auto auto"} -> <<"auto", "auto">> [] t \in {"10em", "auto 10em", "10em auto"} -> <<"10em", "auto">>
